@@ -135,3 +135,184 @@ silent('c18-delete-inline', 'C18',
             shutil.rmtree(key_path)""",
         """        if self._key_to_path(key).exists():
             shutil.rmtree(self._key_to_path(key))"""))
+
+# ------------------------------------------------------------------------------- C01
+fire('c01-iterate-results', 'C01', 'C01.ORDERKEYS',
+     (LAB, 'Lab.run_tasks', 'for task in tasks if task in results}', 'for task in results}'))
+fire('c01-iterate-set', 'C01', 'C01.ORDERKEYS',
+     (LAB, 'Lab.run_tasks', 'for task in tasks if task in results}', 'for task in set(tasks) if task in results}'))
+fire('c01-filter-by-value', 'C01', 'C01.ORDERKEYS',
+     (LAB, 'Lab.run_tasks', 'if task in results}', 'if results.get(task) is not None}'))
+fire('c01-capture-narrowed', 'C01', 'C01.CAPTURE',
+     (LAB, 'TaskCoordinator.run', 'if task in tasks:', 'if task in tasks and res.duration is not None:'))
+fire('c01-capture-wrong-task', 'C01', 'C01.CAPTURE',
+     (LAB, 'TaskCoordinator.run', 'task_results[task] = runner.get_result(task).value', 'task_results[task] = runner.get_result(tasks[0]).value'))
+fire('c01-other-dict-returned', 'C01', 'C01.CAPTURE',
+     (LAB, 'TaskCoordinator.run', 'return task_results', 'return dict()'))
+fire('c01-serial-store-wrong-key', 'C01', ['C01.RUNNER-KEYING', 'C02.RESULT-BEFORE-YIELD'],
+     (SER, 'SerialRunner.wait', 'self.results_map[task] = task_result', 'self.results_map[task_submission] = task_result'))
+fire('c01-future-registered-for-other-task', 'C01', 'C01.RUNNER-KEYING',
+     (PROC, 'ProcessRunner.submit_task', 'self.future_to_task[future] = task', 'self.future_to_task[future] = task_name'))
+fire('c01-result-read-other-key', ['C01', 'C02'], 'C02.FAILED-DEP-RAISES',
+     (TASKS, '_task_result', 'return self._results_map[self].value', 'return next(iter(self._results_map.values())).value'))
+fire('c01-map-not-attached', 'C01', 'C01.DEP-MAP-ATTACH',
+     (SER, 'SerialRunner.wait', 'dependency_task._set_results_map(self.results_map)', 'pass'))
+fire('c01-map-attached-to-first-only', 'C01', 'C01.DEP-MAP-ATTACH',
+     (PROC, 'ProcessRunner._subprocess_func', 'dependency_task._set_results_map(results_map)',
+      'dependency_task._set_results_map(results_map)\n                break'))
+fire('c01-spawn-map-foreign', 'C01', 'C01.DEP-MAP-ATTACH',
+     (PROC, 'SpawnProcessRunner._submit_task', 'dependency_task: self.results_map[dependency_task]', 'dependency_task: None'))
+silent('c01-explicit-loop-instead-of-comprehension-guard', 'C01',
+       (LAB, 'TaskCoordinator.run', 'if task in tasks:\n                        task_results[task] = runner.get_result(task).value',
+        'task_results[task] = runner.get_result(task).value'), note='unguarded capture keeps extra entries that run_tasks drops')
+silent('c01-capture-after-complete', ['C01', 'C17'],
+       (LAB, 'TaskCoordinator.run',
+        """                    if task in tasks:
+                        task_results[task] = runner.get_result(task).value
+                    tasks_with_removable_results = state.complete_task(task, result_meta=res)
+""",
+        """                    tasks_with_removable_results = state.complete_task(task, result_meta=res)
+                    if task in tasks:
+                        task_results[task] = runner.get_result(task).value
+"""))
+
+# ------------------------------------------------------------------------------- C02
+fire('c02-ready-gate-dropped', 'C02', 'C02.READY-GATE',
+     (LAB, 'TaskState.get_ready_tasks', 'if len(self.task_to_pending_dependencies.get(task, set())) > 0:', 'if False:'))
+fire('c02-ready-gate-gt-1', 'C02', 'C02.READY-GATE',
+     (LAB, 'TaskState.get_ready_tasks', 'get(task, set())) > 0:', 'get(task, set())) > 1:'))
+fire('c02-dict-values-not-searched', 'C02', 'C02.DISCOVER-TABLE',
+     (TASKS, 'find_tasks_in_param', 'elif isinstance(param_value, dict) or isinstance(param_value, frozendict):', 'elif isinstance(param_value, dict):'))
+fire('c02-tuple-not-searched', 'C02', 'C02.DISCOVER-TABLE',
+     (TASKS, 'find_tasks_in_param', 'elif isinstance(param_value, list) or isinstance(param_value, tuple):', 'elif isinstance(param_value, list):'))
+fire('c02-first-field-only', 'C02', 'C02.DISCOVER-TABLE',
+     (TASKS, 'get_direct_dependencies', 'for field in fields(task):', 'for field in fields(task)[:1]:'))
+fire('c02-first-item-only', 'C02', 'C02.DISCOVER-TABLE',
+     (TASKS, 'find_tasks_in_param', 'for item in param_value\n', 'for item in param_value[:1]\n'))
+fire('c02-unblock-at-start', 'C02', 'C02.UNBLOCK-ONLY-ON-COMPLETE',
+     (LAB, 'TaskState.start_task', 'self.pending_tasks.remove(task)',
+      'self.pending_tasks.remove(task)\n        for dependent in self.task_to_pending_dependents[task]:\n            self.task_to_pending_dependencies[dependent].discard(task)'))
+fire('c02-edge-not-registered', 'C02', 'C02.EDGES',
+     (LAB, 'TaskState.insert_task', 'self.task_to_pending_dependencies[task].add(dependency)', 'pass'))
+fire('c02-dependents-edge-not-registered', 'C02', ['C02.EDGES'],
+     (LAB, 'TaskState.insert_task', 'self.task_to_pending_dependents[dependency].add(task)', 'pass'))
+fire('c02-deps-not-reprocessed', 'C02', 'C02.EDGES',
+     (LAB, 'TaskState.process_tasks', 'all_dependencies += dependency_tasks', 'pass'))
+fire('c02-results-map-rebound', 'C02', 'C02.ALIAS',
+     (PROC, 'ProcessRunner.remove_results', "del self.results_map[task]", "self.results_map = {t: r for t, r in self.results_map.items() if t != task}"))
+fire('c02-result-default-instead-of-raise', 'C02', 'C02.FAILED-DEP-RAISES',
+     (TASKS, '_task_result', """    if self not in self._results_map:
+        raise TaskError(f"Result for task '{self}' is not available in memory")
+    return self._results_map[self].value""",
+      """    entry = self._results_map.get(self)
+    return entry.value if entry is not None else None"""))
+fire('c02-yield-before-run', 'C02', ['C02.YIELD-AFTER-FINISH', 'C02.RESULT-BEFORE-YIELD'],
+     (SER, 'SerialRunner.wait', """        else:
+            self.results_map[task] = task_result
+            yield (task, task_result.meta)""",
+      """        else:
+            yield (task, task_result.meta)
+            self.results_map[task] = task_result"""))
+fire('c02-submit-not-from-ready', 'C02', 'SUBMIT-FROM-READY',
+     (LAB, 'TaskCoordinator.run', 'for task in ready_tasks:', 'for task in list(state.pending_tasks):'))
+silent('c02-not-emptiness', ['C02', 'C04', 'C05'],
+       (LAB, 'TaskState.get_ready_tasks', 'if len(self.task_to_pending_dependencies.get(task, set())) > 0:',
+        'if self.task_to_pending_dependencies.get(task, set()):'))
+silent('c02-nested-if-ready', ['C02', 'C04', 'C05'],
+       (LAB, 'TaskState.get_ready_tasks',
+        """            if len(self.task_to_pending_dependencies.get(task, set())) > 0:
+                continue
+            if (task._lt.max_parallel is not None) and (task_type_counts[type(task)] >= task._lt.max_parallel):
+                continue
+            task_type_counts[type(task)] += 1
+            ready_tasks.append(task)""",
+        """            if not self.task_to_pending_dependencies[task]:
+                if task._lt.max_parallel is None or task._lt.max_parallel > task_type_counts[type(task)]:
+                    ready_tasks.append(task)
+                    task_type_counts[type(task)] += 1"""))
+silent('c02-explicit-loop-in-search', ['C02', 'C15'],
+       (TASKS, 'get_direct_dependencies', 'dependency_tasks: OrderedSet[Task] = OrderedSet()', 'dependency_tasks: OrderedSet[Task] = OrderedSet()  # collected below'))
+
+# ------------------------------------------------------------------------------- C03
+fire('c03-expand-regardless-of-cache', 'C03', 'C03.NO-EXPAND-CACHED',
+     (LAB, 'TaskState.process_tasks', 'if not self.coordinator.use_cache(task):', 'if True:'))
+fire('c03-submit-use-cache-false', 'C03', 'C03.PREDICATE-AGREE',
+     (LAB, 'TaskCoordinator.run', 'use_cache=self.use_cache(task),', 'use_cache=False,'))
+fire('c03-submit-is-cached', 'C03', 'C03.PREDICATE-AGREE',
+     (LAB, 'TaskCoordinator.run', 'use_cache=self.use_cache(task),', 'use_cache=self.lab.is_cached(task),'))
+fire('c03-use-cache-ignores-bust', ['C03', 'C08'], 'C03.USE-CACHE-TRUTH',
+     (LAB, 'TaskCoordinator.use_cache', 'return (not self.bust_cache) and self.lab.is_cached(task)', 'return self.lab.is_cached(task)'))
+fire('c03-use-cache-or', ['C03', 'C08'], 'C03.USE-CACHE-TRUTH',
+     (LAB, 'TaskCoordinator.use_cache', '(not self.bust_cache) and', '(not self.bust_cache) or'))
+fire('c03-save-dropped', ['C03', 'C06'], 'C03.LOAD-XOR-EXEC',
+     (BASE, 'run_or_load_task', 'task._lt.cache.save(storage, task, task_result)', 'pass'))
+fire('c03-load-falls-through', 'C03', 'C03.LOAD-XOR-EXEC',
+     (BASE, 'run_or_load_task', '            return task_result\n        else:', '        if True:'))
+fire('c03-skip-by-equality', 'C03', 'C03.INSTANCES',
+     (LAB, 'TaskState.process_tasks', 'if id(task) in self.processed_task_ids:', 'if task in self.pending_tasks:'))
+fire('c03-mark-only-one-instance', 'C03', 'C03.INSTANCES',
+     (LAB, 'TaskState.complete_task', """            for task_instance in self.task_to_instances[task]:
+                task_instance._set_result_meta(result_meta)""", """            task._set_result_meta(result_meta)"""))
+fire('c03-start-task-not-called', 'C03', 'C03.SUBMIT-ONCE',
+     (LAB, 'TaskCoordinator.run', 'state.start_task(task)', 'pass'))
+fire('c03-pending-readded-on-complete', 'C03', 'C03.SUBMIT-ONCE',
+     (LAB, 'TaskState.complete_task', 'self.type_to_active_tasks[type(task)].remove(task)',
+      'self.type_to_active_tasks[type(task)].remove(task)\n        if result_meta is None:\n            self.pending_tasks.add(task)'))
+silent('c03-use-cache-demorgan', ['C03', 'C08'],
+       (LAB, 'TaskCoordinator.use_cache', 'return (not self.bust_cache) and self.lab.is_cached(task)',
+        'return not (self.bust_cache or not self.lab.is_cached(task))'))
+silent('c03-use-cache-if-form', ['C03', 'C08'],
+       (LAB, 'TaskCoordinator.use_cache', 'return (not self.bust_cache) and self.lab.is_cached(task)',
+        'if self.bust_cache:\n            return False\n        return self.lab.is_cached(task)'))
+
+# ------------------------------------------------------------------------------- C04 / C05
+fire('c04-type-gate-gt', 'C04', 'C04.TYPE-GATE',
+     (LAB, 'TaskState.get_ready_tasks', 'task_type_counts[type(task)] >= task._lt.max_parallel', 'task_type_counts[type(task)] > task._lt.max_parallel'))
+fire('c04-type-gate-plus-one', 'C04', 'C04.TYPE-GATE',
+     (LAB, 'TaskState.get_ready_tasks', '>= task._lt.max_parallel)', '>= task._lt.max_parallel + 1)'))
+fire('c04-counter-not-incremented', 'C04', 'C04.TYPE-GATE',
+     (LAB, 'TaskState.get_ready_tasks', 'task_type_counts[type(task)] += 1', 'pass'))
+fire('c04-counter-not-from-active', 'C04', 'C04.TYPE-GATE',
+     (LAB, 'TaskState.get_ready_tasks', 'task_type: len(active_tasks)', 'task_type: 0'))
+fire('c04-worker-gate-max-1', 'C04', 'C04.WORKER-GATE',
+     (PROC, 'ProcessExecutor._start_processes', 'max(0, self.max_workers - len(self._running_id_to_future_and_process))', 'max(1, self.max_workers - len(self._running_id_to_future_and_process))'))
+fire('c04-worker-gate-plus-one', 'C04', 'C04.WORKER-GATE',
+     (PROC, 'ProcessExecutor._start_processes', 'self.max_workers - len(self._running_id_to_future_and_process))', 'self.max_workers - len(self._running_id_to_future_and_process) + 1)'))
+fire('c04-slice-removed', 'C04', 'C04.WORKER-GATE',
+     (PROC, 'ProcessExecutor._start_processes', '[:start_count]', ''))
+fire('c04-unclamped', 'C04', 'C04.WORKER-GATE',
+     (PROC, 'ProcessExecutor._start_processes', 'start_count = max(0, self.max_workers - len(self._running_id_to_future_and_process))', 'start_count = self.max_workers - len(self._running_id_to_future_and_process)'))
+fire('c04-process-started-in-submit', 'C04', 'C04.WHO-MAY-START',
+     (PROC, 'ProcessExecutor.submit', 'self._start_processes()', 'multiprocessing.Process(target=fn).start()'))
+fire('c04-default-twice-cpu', 'C04', 'C04.DEFAULT',
+     (PROC, 'ProcessExecutor.__init__', 'os.cpu_count() if max_workers is None else max_workers', 'os.cpu_count() * 2 if max_workers is None else max_workers'))
+fire('c04-serial-runs-all', 'C04', 'SERIAL-ONE',
+     (SER, 'SerialRunner.wait', '        task = task_submission.task\n', '        task = task_submission.task\n        import threading\n        threading.Thread(target=print).start()\n'))
+fire('c05-submit-first-only', 'C05', 'C05.SUBMIT-ALL',
+     (LAB, 'TaskCoordinator.run', 'for task in ready_tasks:', 'for task in ready_tasks[:1]:'))
+fire('c05-break-after-first-submit', 'C05', 'C05.SUBMIT-ALL',
+     (LAB, 'TaskCoordinator.run', "                                use_cache=self.use_cache(task),\n                            )", "                                use_cache=self.use_cache(task),\n                            )\n                            break"))
+fire('c05-no-topup-in-submit', 'C05', 'C05.TOPUP',
+     (PROC, 'ProcessExecutor.submit', 'self._start_processes()', 'pass'))
+fire('c05-no-topup-in-wait', 'C05', 'C05.TOPUP',
+     (PROC, 'ProcessExecutor.wait', 'self._start_processes()', 'pass'))
+fire('c05-start-at-most-one', ['C05', 'C04'], 'C04.WORKER-GATE',
+     (PROC, 'ProcessExecutor._start_processes', '[:start_count]', '[:min(1, start_count)]'))
+fire('c05-scan-breaks-at-first-blocked', 'C05', 'C05.SCAN-EXACT',
+     (LAB, 'TaskState.get_ready_tasks', "get(task, set())) > 0:\n                continue", "get(task, set())) > 0:\n                break"))
+fire('c05-serial-pop-newest', ['C05', 'C04'], 'SERIAL-ONE',
+     (SER, 'SerialRunner.wait', 'self.task_submissions.popleft()', 'self.task_submissions.pop()'))
+silent('c04-operands-swapped', ['C04', 'C05'],
+       (LAB, 'TaskState.get_ready_tasks', 'task_type_counts[type(task)] >= task._lt.max_parallel', 'task._lt.max_parallel <= task_type_counts[type(task)]'))
+silent('c04-bound-operands-swapped', ['C04', 'C05'],
+       (PROC, 'ProcessExecutor._start_processes', 'max(0, self.max_workers - len(self._running_id_to_future_and_process))', 'max(-len(self._running_id_to_future_and_process) + self.max_workers, 0)'))
+silent('c04-islice', ['C04', 'C05'],
+       (PROC, 'ProcessExecutor._start_processes', 'futures_to_start = list(self._pending_future_to_thunk.keys())[:start_count]',
+        'from itertools import islice\n        futures_to_start = list(islice(self._pending_future_to_thunk, start_count))'))
+silent('c04-default-if-statement', 'C04',
+       (PROC, 'ProcessExecutor.__init__', 'self.max_workers = os.cpu_count() if max_workers is None else max_workers',
+        'if max_workers is None:\n            max_workers = os.cpu_count()\n        self.max_workers = max_workers'))
+silent('c04-default-negated-test', 'C04',
+       (PROC, 'ProcessExecutor.__init__', 'os.cpu_count() if max_workers is None else max_workers', 'max_workers if max_workers is not None else os.cpu_count()'))
+silent('c05-logging-added', ['C05', 'C02', 'C03', 'C14'],
+       (LAB, 'TaskCoordinator.run', '                            state.start_task(task)', "                            logger.debug(f'Starting {task}')\n                            state.start_task(task)"))
